@@ -394,7 +394,7 @@ class Nodes(_Nodes):
     opmap = {
         'false': '0', 'true': '1',
         '~': '!',
-        r'\/': '|', '/\\': '&',
+        r'\/': '|', '/\\': '&', '^': '^',
         '=>': '| !',
         '=>': '| !',
         '<=>': '! ^',
